@@ -23,7 +23,7 @@ def repo_sources():
 
 
 COMMENTS = ["(* c *)", "(**)", "(***)", "(* a ** b **)", "(* é € \U0001F600 *)", "(* line1\n   line2 *)",
-            "(* x\r\n y *)", "(* l1\n\n l3 *)", "(* a\r\n b\r\n\r\n d *)", "(* ( * ) *)", "(* (* nested-looking *)", "(*\t*)", "(* 'q' \"d\" *)"]
+            "(* x\r\n y *)", "(* l1\n\n l3 *)", "(*@KEY@:DESCRIPTION*)", "(* a\r\n b\r\n\r\n d *)", "(* ( * ) *)", "(* (* nested-looking *)", "(*\t*)", "(* 'q' \"d\" *)"]
 BLANKS = [" ", "  ", "\t", "\n", "\r\n", " \n ", "\n\n", "\f"]
 OSCAT = "(*@KEY@:DESCRIPTION*)\nversion 1.0\tdate é\n(*@KEY@:END_DESCRIPTION*)"
 INVALID = ["?", "@", "$", "é", "€", "\U0001F600", "\r", "~", "`", "\\", "!", "|", "^", "%"]
